@@ -36,7 +36,7 @@ def history(rng, res, kinds_pool):
                 elif a < 0.8:
                     m.delete(rng.choice(list(m.tables))); desc.append("delete")
                 else:
-                    c = m.txn_block(rng.choice(list(m.tables)), rng.randrange(1, 5), rng.random() < 0.5)
+                    c = m.txn_block(list(m.tables) if rng.random() < 0.3 else rng.choice(list(m.tables)), rng.randrange(1, 5), rng.random() < 0.5)
                     desc.append("txn(%s)" % ("commit" if c else "abort"))
                 if m.fails or m.db.dead:
                     break
